@@ -103,6 +103,13 @@ def exitWrap (S : Sem St) : MR St → MR St
   | .throw v2 L2 σ2 => .throw v2 L2 (S.catchExit σ2)
   | .fuel => .fuel
 
+/-- cmplEvaluateNodeWithStatement's `defer func() { rt.scope.lexical = outer }()`: the outer lexical
+    environment is restored however the body ends (a JS exception is a Go panic: the defer still runs) -/
+def withExitWrap (S : Sem St) : MR St → MR St
+  | .ok o L2 σ2 => .ok o L2 (S.withExit σ2)
+  | .throw v2 L2 σ2 => .throw v2 L2 (S.withExit σ2)
+  | .fuel => .fuel
+
 /-- `if exep && node.catch != nil { … tryCatchEvaluate(catch body) }` -/
 def catchPhase (S : Sem St) (hasCatch : Bool) (param : String) (runC : List String → St → MR St) : MR St → MR St
   | .throw v L1 σ1 => if hasCatch then exitWrap S (runC L1 (S.catchEnter param v σ1)) else .throw v L1 σ1
@@ -195,6 +202,15 @@ def ottoS (S : Sem St) : Nat → Stmt → List String → St → MR St
       finallyPhase hasFin (fun L2 σ2 => blockWrap L2 (ottoList S n f [] σ2 (.val .undef)))
         (catchPhase S hasCatch param (fun L1 σ1 => blockWrap L1 (ottoList S n c [] σ1 (.val .undef)))
           (blockWrap L (ottoList S n b [] σ (.val .undef))))
+    | .withS e b =>
+      -- cmplEvaluateNodeWithStatement (cmpl_evaluate_statement.go): object expression, toObject,
+      -- new object stash in front, deferred restore, then the body statement (rt.labels untouched)
+      match S.evalE e σ with
+      | .throw v σ' => .throw v L σ'
+      | .ok v σ' =>
+        match S.withEnter v σ' with
+        | .throw t σ2 => .throw t L σ2
+        | .ok _ σ2 => withExitWrap S (ottoS S n b L σ2)
     | .switchS d cs =>
       -- labels := append(rt.labels, ""); rt.labels = nil
       match S.evalE d σ with
